@@ -37,23 +37,47 @@ import (
 func init() { verifChecks["C08"] = runC08 }
 
 const (
-	c08LogSize  = int64(24) // 16-byte header + 8 data bytes, then rotation
-	c08SnapSize = int64(40)
-	c08GcMax    = int64(12)
 	c08Settle   = 3
 	c08Horizon  = 40
 )
+
+// geometry of the history being recorded / checked (set by c08Geom): unit 1 = 8 data bytes
+// per segment, snapshot 40 B; unit 1100 (Big) = 8800 data bytes per segment, appends of
+// 9900 B, snapshot 11000 B - every file spans several 4 KiB / 8 KiB buffers of the
+// writers, readers and checksum loops.
+var (
+	c08U        = int64(1)
+	c08LogSize  = int64(24) // 16-byte header + 8 data bytes, then rotation
+	c08SnapSize = int64(40)
+	c08GcMax    = int64(12)
+)
+
+func c08Geom(h c08Hist) {
+	c08U = 1
+	c08SnapSize = 40
+	if h.Big {
+		c08U = 1100
+		c08SnapSize = 11000
+	}
+	c08LogSize = 16 + 8*c08U
+	c08GcMax = 12 * c08U
+}
 
 type c08Hist struct {
 	Snap string `json:"snap"` // full | none | fail (source ends after 25 of 40 bytes)
 	App  string `json:"app"`  // a: 9,9,3   b: 5,4,9,1   c: 20,2
 	GC   bool   `json:"gc"`   // one collector pass after the appends
 	Tail string `json:"tail"` // none | close | more | rename | delnew | resnap
+	Big  bool   `json:"big,omitempty"` // large files (see c08Geom)
 	Base int64  `json:"base"` // first offset: 95 (names 95,104,113 cross the 2->3 digit boundary: lexical != numeric order) | 100
 }
 
 func (h c08Hist) String() string {
-	return fmt.Sprintf("snap=%s,app=%s,gc=%v,tail=%s,base=%d", h.Snap, h.App, h.GC, h.Tail, h.Base)
+	s := fmt.Sprintf("snap=%s,app=%s,gc=%v,tail=%s,base=%d", h.Snap, h.App, h.GC, h.Tail, h.Base)
+	if h.Big {
+		s += ",big"
+	}
+	return s
 }
 
 type c08Scenario struct {
@@ -63,7 +87,8 @@ type c08Scenario struct {
 	Cut    int     `json:"cut"`    // crash: bytes of log[n] applied (-1 = none)
 	File   string  `json:"file"`   // alter: file (relative)
 	Pos    int     `json:"pos"`    // alter: byte position
-	Xor    int     `json:"xor"`    // alter: xor mask
+	Xor    int     `json:"xor"`    // alter: xor mask (0 with Grow != 0)
+	Grow   int     `json:"grow,omitempty"` // alter: change the file length by this many bytes instead (-1, -8, +1)
 }
 
 func c08AofByte(hist int, off int64) byte { return byte(41*(2*(hist%3)) + int(off%41)) }
@@ -107,6 +132,7 @@ type c08W struct {
 func c08Record(t *testing.T, h c08Hist, root string) c08Recorded {
 	rec := c08Recorded{idHist: map[string]int{"runA": 0}, maxRight: map[string]int64{}, minLeft: map[string]int64{}}
 	c08Base := h.Base
+	c08Geom(h)
 	msg := bubble(t, func() {
 		vpoll.Reset(true)
 		os.MkdirAll(root, 0o777)
@@ -147,10 +173,11 @@ func c08Record(t *testing.T, h c08Hist, root string) c08Recorded {
 			closers = append(closers, w.Close)
 			w.Start()
 			sb := c08SnapBytes(hist)
-			g.Release(sb[:25])
+			cutAt := c08SnapSize * 5 / 8
+			g.Release(sb[:cutAt])
 			synctest.Wait()
 			if complete {
-				g.Release(sb[25:])
+				g.Release(sb[cutAt:])
 			} else {
 				g.Close(nil)
 			}
@@ -201,7 +228,7 @@ func c08Record(t *testing.T, h c08Hist, root string) c08Recorded {
 			chunks = []int64{20, 2}
 		}
 		for _, n := range chunks {
-			app(n)
+			app(n * c08U)
 		}
 		if h.GC {
 			st.VerifGC()
@@ -213,7 +240,7 @@ func c08Record(t *testing.T, h c08Hist, root string) c08Recorded {
 			curGate.Close(nil)
 			synctest.Wait()
 		case "more":
-			app(9)
+			app(9 * c08U)
 		case "rename":
 			curGate.Close(nil)
 			synctest.Wait()
@@ -226,7 +253,7 @@ func c08Record(t *testing.T, h c08Hist, root string) c08Recorded {
 			rec.minLeft[id] = c08Base
 			rec.maxRight[id] = right
 			if newAof(right) {
-				app(9)
+				app(9 * c08U)
 			}
 		case "delnew":
 			if err := st.DelRunId("runA"); err != nil {
@@ -242,11 +269,11 @@ func c08Record(t *testing.T, h c08Hist, root string) c08Recorded {
 			rec.idHist[id] = hist
 			rec.minLeft[id] = c08Base
 			if snapshot(c08Base, true) && newAof(c08Base) {
-				app(9)
+				app(9 * c08U)
 			}
 		case "resnap":
 			if snapshot(c08Base, true) && newAof(c08Base) {
-				app(9)
+				app(9 * c08U)
 			}
 		}
 		rec.log = vos.StopLog()
@@ -567,7 +594,7 @@ func (c *c08Check) checkID(id string, hist int, minLeft, maxRight int64) {
 		c.fail("the reported range is not a range", "range-shape", nil)
 		return
 	}
-	if r > maxRight || (l >= 0 && l < minLeft) {
+	if !c.lenient && (r > maxRight || (l >= 0 && l < minLeft)) { // (an altered file length shows in the range; what counts there is that nothing wrong is served)
 		c.fail("the reported range exceeds the bytes the source sent", "beyond-source", map[string]interface{}{"run_id": id, "sent": []int64{minLeft, maxRight}})
 		return
 	}
@@ -742,9 +769,19 @@ func c08Histories(tier string) []c08Hist {
 					if tier == "thorough" || (app == "a" && snap == "full") {
 						out = append(out, c08Hist{Snap: snap, App: app, GC: gc, Tail: tail, Base: 100})
 					}
+					// first offset 0: names 0.aof / 0_40.rdb, every "0 = none" default is a real offset
+					if (tier == "thorough" && app != "c") || (app == "a" && snap == "full" && !gc) || (app == "b" && snap == "none" && tail == "close") {
+						out = append(out, c08Hist{Snap: snap, App: app, GC: gc, Tail: tail, Base: 0})
+					}
 				}
 			}
 		}
+	}
+	// large files (segments 9900 B, snapshot 11000 B): crash family with sampled torn writes,
+	// read with and without verification; alteration family on the clean-close history
+	out = append(out, c08Hist{Snap: "full", App: "a", GC: false, Tail: "close", Base: 95, Big: true})
+	if tier == "thorough" {
+		out = append(out, c08Hist{Snap: "full", App: "a", GC: true, Tail: "resnap", Base: 0, Big: true}, c08Hist{Snap: "fail", App: "b", GC: false, Tail: "rename", Base: 100, Big: true})
 	}
 	if tier != "thorough" {
 		out = append(out, c08Hist{Snap: "fail", App: "a", GC: false, Tail: "none", Base: 95}, c08Hist{Snap: "fail", App: "a", GC: false, Tail: "close", Base: 100},
@@ -827,6 +864,7 @@ func runC08(t *testing.T, rep *mc.Reporter) {
 	}
 
 	execScn := func(scn c08Scenario, rec c08Recorded) c08Outcome {
+		c08Geom(scn.Hist)
 		switch scn.Family {
 		case "crash", "crash-crc":
 			im := vos.Build(rec.log, scn.N, scn.Cut)
@@ -837,12 +875,18 @@ func runC08(t *testing.T, rep *mc.Reporter) {
 			return c08CheckImage(t, im, rec, true, false, "clean-crc", nil)
 		default:
 			im := vos.Build(rec.log, len(rec.log), -1)
-			c08Alter(im, scn.File, scn.Pos, byte(scn.Xor))
+			what := fmt.Sprintf("%s[%d]^%#x", scn.File, scn.Pos, scn.Xor)
+			if scn.Grow != 0 {
+				im.Resize(scn.File, scn.Grow)
+				what = fmt.Sprintf("%s length%+d", scn.File, scn.Grow)
+			} else {
+				c08Alter(im, scn.File, scn.Pos, byte(scn.Xor))
+			}
 			kind := "aof"
 			if strings.HasSuffix(scn.File, ".rdb") {
 				kind = "rdb"
 			}
-			return c08CheckImage(t, im, rec, true, true, "altered-"+kind, map[string]interface{}{"altered": fmt.Sprintf("%s[%d]^%#x", scn.File, scn.Pos, scn.Xor)})
+			return c08CheckImage(t, im, rec, true, true, "altered-"+kind, map[string]interface{}{"altered": what})
 		}
 	}
 
@@ -917,14 +961,18 @@ func runC08(t *testing.T, rep *mc.Reporter) {
 			seen[hsh] = true
 			images++
 			run(c08Scenario{Hist: h, Family: "crash", N: n, Cut: cut}, rec)
-			if tier == "thorough" {
+			if tier == "thorough" || h.Big || (h == c08Hist{Snap: "full", App: "a", GC: false, Tail: "none", Base: 95}) {
 				run(c08Scenario{Hist: h, Family: "crash-crc", N: n, Cut: cut}, rec)
 			}
 		}
 		for n := 0; n <= len(rec.log); n++ {
 			try(n, -1)
 			if n < len(rec.log) && rec.log[n].Kind == "write" {
-				for cut := 1; cut < len(rec.log[n].Data); cut++ {
+				ln := len(rec.log[n].Data)
+				for cut := 1; cut < ln; cut++ {
+					if ln > 64 && !(cut <= 2 || cut >= ln-2 || cut == ln/2 || cut%4096 == 0 || cut%4096 == 1 || cut%4096 == 4095) {
+						continue // large write: torn at its ends, in the middle and around 4 KiB boundaries
+					}
 					try(n, cut)
 				}
 			}
@@ -935,7 +983,7 @@ func runC08(t *testing.T, rep *mc.Reporter) {
 			rep.Count("duplicate_images", dups)
 		}
 		// family 2: alterations of cleanly closed files, verification on
-		if h.Tail == "close" && h.Snap != "fail" && (tier == "thorough" || h.App == "a") {
+		if h.Tail == "close" && h.Snap != "fail" && (tier == "thorough" || h.App == "a" || h.Big) {
 			run(c08Scenario{Hist: h, Family: "clean-crc"}, rec)
 			final := vos.Build(rec.log, len(rec.log), -1)
 			files := final.Files()
@@ -949,10 +997,27 @@ func runC08(t *testing.T, rep *mc.Reporter) {
 				masks = []int{0x01, 0x10, 0x80, 0xff}
 			}
 			for _, p := range names {
-				for pos := 0; pos < len(files[p]); pos++ {
+				ln := len(files[p])
+				hdr := 0
+				if strings.HasSuffix(p, ".aof") {
+					hdr = 16
+				}
+				for pos := 0; pos < ln; pos++ {
+					if ln > 256 {
+						// large file: whole header, then the first, a middle and the last block
+						// edge-wise (4 KiB and 8 KiB buffer boundaries of the data), and the trailer
+						q := pos - hdr
+						if !(pos < hdr+2 || pos >= ln-10 || q%4096 <= 1 || q%4096 == 4095 || q == (ln-hdr)/2) {
+							continue
+						}
+					}
 					for _, m := range masks {
 						run(c08Scenario{Hist: h, Family: "alter", File: p, Pos: pos, Xor: m}, rec)
 					}
+				}
+				// length alterations of a closed file: one byte / the trailer missing, one byte too many
+				for _, g := range []int{-1, -8, 1} {
+					run(c08Scenario{Hist: h, Family: "alter", File: p, Grow: g}, rec)
 				}
 			}
 		}
